@@ -266,6 +266,22 @@ func init() {
 			"a panic anywhere in the accessor (an implicit obligation of the engine: bounds, nil, division, type assertion) is the violation of the totality slice",
 		},
 	}
+	lim := []string{"github.com/gofiber/fiber/v3", "github.com/gofiber/fiber/v3/internal/memory"}
+	props["C13"] = PropSpec{
+		ID: "C13",
+		Runs: []HarnessRun{
+			{Rel: "middleware/limiter", Dir: "limiter", Entry: "VH_C13_sequential", Cases: tierCases([]int{0, 9, 16, 25, 2, 20}, []int{0, 1, 2, 3, 4, 5, 8, 9, 10, 12, 16, 17, 18, 20, 24, 25, 26, 28}), Reach: []string{"admitted", "rejected"}, MaxPaths: 200000, ExtraPkgs: lim},
+		},
+		Bounds: map[string]string{
+			"quick":    "fixed and sliding window, memory and external (stub) storage, skip options: histories of 3 requests over 2 keys, inter-arrival gaps 0..Expiration+1 s (solver-enumerated), per-request MaxFunc limit symbolic in 1..3, handler outcome symbolic; Expiration 2-3 s",
+			"thorough": "all algorithm x storage x skip combinations listed",
+		},
+		Assumptions: []string{
+			"one virtual clock (seconds): utils.Timestamp and the stub storage read it; gaps are whole seconds",
+			"the sliding-window weight is the float formula of the implementation evaluated on small concrete operands (rounding at scale outside)",
+			"external storage = a correct TTL store on the virtual clock",
+		},
+	}
 	props["SMOKEFAIL"] = PropSpec{
 		ID: "SMOKEFAIL",
 		Runs: []HarnessRun{
